@@ -16,5 +16,10 @@ Definition check_leakage (D : nat) (Pn : list (list (float * float))) (a x v aj 
   let leak := sigj * cabs2 FO (cdotF D w ajj) in
   let v2 := bsum FO D (fun i => cabs2 FO (vv i)) in
   let dist := sqrt (cabs2 FO (csub FO (cdotF D vv aa) (1, 0))) in
-  (andb (andb (PrimFloat.leb res 0x1p-30) (PrimFloat.leb dist 0x1p-30))
+  (* contract of the solve oracle: backward stable, residual <= c * eps * |A| * |x| (the noise floor may lie 80 dB below the
+     sources, so |x| ~ 1/nu is large); 2^-40 * D * max|A| * max|x| leaves a factor ~1e3 over the unit roundoff *)
+  let sA := fold_right fmax 0 (tab D (fun i => fold_right fmax 0 (tab D (fun j => sqrt (cabs2 FO (A i j)))))) in
+  let sx := fold_right fmax 0 (tab D (fun i => sqrt (cabs2 FO (xx i)))) in
+  let rtol := (0x1p-40 * (1 + sA * sx * (1 + 1 + 1 + 1 + 1 + 1 + 1 + 1)))%float in
+  (andb (andb (PrimFloat.leb res (fmax 0x1p-30 rtol)) (PrimFloat.leb dist 0x1p-30))
         (PrimFloat.leb leak (nu * v2 * (1 + 0x1p-20) + 0x1p-1000)), leak - nu * v2).
